@@ -74,7 +74,15 @@ type ctl struct {
 	put      chan int64
 	done     chan int64 // completion of the receiver's arm / poll step (1 = the poll returned a message)
 	prefix   string     // "rq." or "wq."
-	idle     atomic.Bool
+	// send-loop layer: frames queued, frames taken by the send loop, and how many it had taken when it last found the
+	// queue empty.  The loop is idle when it found the queue empty after taking everything that was queued (the put event
+	// of a frame may be reported after the send loop has taken that frame).
+	puts, gots, emptyAt atomic.Int64
+}
+
+func (c *ctl) isIdle() bool {
+	g := c.gots.Load()
+	return c.puts.Load() == g && c.emptyAt.Load() == g && g > 0
 }
 
 func (c *ctl) trace(ev string, id bin.Bin128, a, b int64) {
@@ -90,10 +98,13 @@ func (c *ctl) trace(ev string, id bin.Bin128, a, b int64) {
 	}
 	if c.prefix == "wq." {
 		// idle: the send loop polled an empty queue and nothing was queued since
-		if ev == "rq.poll.done" && a == 0 {
-			c.idle.Store(true)
-		} else if ev == "rq.put" || (ev == "rq.poll.done" && a == 1) {
-			c.idle.Store(false)
+		switch {
+		case ev == "rq.put":
+			c.puts.Add(1)
+		case ev == "rq.poll.done" && a == 1:
+			c.gots.Add(1)
+		case ev == "rq.poll.done" && a == 0:
+			c.emptyAt.Store(c.gots.Load())
 		}
 	}
 	c.mu.Lock()
@@ -566,10 +577,10 @@ func main() {
 					return nil, nil, id, err
 				}
 				deadline := time.Now().Add(stepTimeout)
-				for !c.idle.Load() && time.Now().Before(deadline) {
+				for !c.isIdle() && time.Now().Before(deadline) {
 					time.Sleep(100 * time.Microsecond)
 				}
-				if !c.idle.Load() {
+				if !c.isIdle() {
 					ch.Free()
 					return nil, nil, id, fmt.Errorf("the send loop did not become idle")
 				}
